@@ -242,19 +242,27 @@ def getUser (st : St) (s : Str) : St × R User :=
 
 def hasLineBreak (s : Str) : Bool := s.contains '\n' || s.contains '\r'
 
+/-- `v.checkHostmask(hm)` as `setUser` calls it: `hm` is an element of an IrcSet, i.e. an
+`IrcString`, whose `==` compares IRC-lowered strings — so here a login matches up to case -/
+def maskHitsUser (v : User) (timeout now : Int) (hm : Str) : Bool :=
+  v.auth.any (fun e => authLive timeout now e && maskEq hm e.2) ||
+    (match v.patMatch hm with
+     | some p => !p.isEmpty
+     | none => false)
+
 /-- the overlap loops of `setUser`: some mask of `u`, read as a hostmask, is accepted by another
 user's `checkHostmask`, or, read as a pattern, matches another user's mask read as a string -/
 def overlaps (users : List User) (timeout now : Int) (u : User) : Bool :=
   u.hostmasks.any fun hm =>
     users.any fun v =>
-      v.id != u.id &&
-        ((checkHostmask v timeout now hm true).truthy || v.hostmasks.any (fun o => glob hm o))
+      v.id != u.id && (maskHitsUser v timeout now hm || v.hostmasks.any (fun o => glob hm o))
 
 /-- `UsersDictionary.setUser(u)` -/
 def setUser (st : St) (u : User) : St × R Unit :=
   if hasLineBreak u.name then (st, .error .value)
   else
-    let st1 := { st with nextId := max st.nextId u.id }
+    -- both caches are emptied first: the caller may have changed the stored record already
+    let st1 := { st with hc := {}, nc := {}, nextId := max st.nextId u.id }
     let r := getUserId st1 u.name
     let clash : Option Err :=
       match r.2 with
@@ -396,7 +404,7 @@ def step (st : St) : Op → St × Out
       let s := setUser st1 u1
       (s.1, outOfUnit s.2)
   | .load id name sec masks =>
-    let u : User := { id := id, name := name, secure := sec, hostmasks := masks }
+    let u : User := { id := id, name := name, secure := sec, hostmasks := masks.foldl masksAdd [] }
     let s := setUser st u
     match s.2 with
     | .ok _ => (s.1, .done)
